@@ -824,6 +824,15 @@ func (g *Gen) loopHeader(f *Frame, ci *cfgInfo, b *ssa.BasicBlock, preds []*ssa.
 		f.vals[phi] = Term{n, srt, phi.Type()}
 		g.typeFacts(f.en, f.vals[phi], g.now(f.st), true)
 	}
+	// loop-carried private slices (see privateSlices) are nil or backed by an array this activation allocated
+	if f.privSl == nil {
+		f.privSl = privateSlices(f.fn)
+	}
+	for _, phi := range phis {
+		if f.privSl[phi] && f.entry != nil {
+			g.assume(f.en, fmt.Sprintf("(or (= (s_ref %[1]s) 0) (> (s_ref %[1]s) %[2]s))", f.vals[phi].S, g.now(f.entry)))
+		}
+	}
 	if spec != nil {
 		for _, inv := range spec.Invariants {
 			g.assume(f.en, g.clause(f, inv, f.st, nil))
